@@ -152,3 +152,57 @@ func VerifC10_FlipHeaderOfFragment() {
 	vsym.Assert(len(after) >= 1, "the log files are gone after opening")
 	vsym.Reach("done")
 }
+
+// VerifC10_FlipTypeOfFragmentCraftedValue: the record-type byte of the LAST record of a fragmented entry is replaced
+// by a symbolic different value, and the part of the (user-chosen) value that this record carries starts with
+// fourteen symbolic bytes - so the solver may make it look like a complete log entry (operation type, sequence number,
+// key length, key). The type byte is not under the record checksum; what the reader makes of a record that claims
+// to be complete in the middle of a fragmented entry decides whether user data can come back as an operation that was
+// never appended. Opening succeeds; the entry written before is recovered unaltered; the fragmented entry is exact or
+// absent; no other key exists.
+func VerifC10_FlipTypeOfFragmentCraftedValue() {
+	cfg := config.NewDefaultConfig(vsym.Dir())
+	m, err := NewManager(cfg, stats.NewAtomicCollector())
+	vsym.Assert(err == nil, "NewManager failed")
+	ka, kb := []byte{'a'}, []byte{'b'}
+	va := vsym.Bytes("va", 1)
+	vb := c10Big("vb", 33000)
+	// the LAST record carries vb[MaxRecordSize-4:]; its first fourteen bytes are free
+	w := wal.MaxRecordSize - 4
+	win := vsym.Bytes("win", 14)
+	copy(vb[w:], win)
+	// bound: a crafted key length of at most 2 (the three upper length bytes are zero)
+	vsym.Assume(win[9] <= 2 && win[10] == 0 && win[11] == 0 && win[12] == 0)
+	vsym.Assert(m.Put(ka, va) == nil && m.Put(kb, vb) == nil, "Put failed")
+	vsym.Assert(m.Close() == nil, "Close failed")
+	files, _ := wal.FindWALFiles(cfg.WALDir)
+	vsym.Assert(len(files) == 1, "expected one log file")
+	data, err := os.ReadFile(files[0])
+	vsym.Assert(err == nil, "ReadFile failed")
+	h := wal.HeaderSize
+	b1 := h + 1 + 8 + 4 + 1 + 4 + 1
+	b2 := b1 + h + 13 + 1
+	b3 := b2 + h + wal.MaxRecordSize
+	vsym.Assert(b3+h+14 < len(data), "log layout differs from the harness' bookkeeping")
+	vsym.Assert(data[b3+6] == wal.RecordTypeLast && data[b2+6] == wal.RecordTypeMiddle, "log layout differs from the harness' bookkeeping (record types)")
+	nb := vsym.Byte("nb")
+	vsym.Assume(nb != data[b3+6])
+	data[b3+6] = nb
+	vsym.Assert(os.WriteFile(files[0], data, 0644) == nil, "rewrite failed")
+	m2, err := NewManager(cfg, stats.NewAtomicCollector())
+	vsym.Assert(err == nil, "opening a database with one altered record-type byte in its log failed")
+	if err != nil {
+		return
+	}
+	got, gerr := m2.Get(ka)
+	vsym.Assert(gerr == nil && vsym.EqBytes(got, va), "the entry written before the damaged one is gone or altered: an operation that was never appended was replayed")
+	got, gerr = m2.Get(kb)
+	if gerr == nil {
+		vsym.Assert(len(got) == len(vb) && vsym.EqBytes(got, vb), "a fragmented entry was recovered with bytes that were never written")
+	}
+	q := vsym.Bytes("q", 1)
+	vsym.Assume(q[0] != 'a' && q[0] != 'b')
+	_, gerr = m2.Get(q)
+	vsym.Assert(gerr != nil, "a key that was never written exists after recovery: user data was replayed as an operation")
+	vsym.Reach("done")
+}
